@@ -1,4 +1,4 @@
-from asyncio import CancelledError, Task, TaskGroup, get_event_loop
+from asyncio import CancelledError, Task, TaskGroup, current_task, get_event_loop
 from collections.abc import Callable, Coroutine
 from contextvars import ContextVar, Token, copy_context
 from types import TracebackType
@@ -54,6 +54,9 @@ class TaskGroupContext:
         TaskGroupContext._context.reset(self._token)
         self._token = None
 
+        task: Task[object] | None = current_task()
+        cancel_requests: int = task.cancelling() if task is not None else 0
+
         try:
             await self._group.__aexit__(
                 et=exc_type,
@@ -65,4 +68,12 @@ class TaskGroupContext:
             raise  # never silence cancellation, it might have been requested when exiting
 
         except BaseException:
-            pass  # silence TaskGroup exceptions, if there was exception already we will get it
+            # silence TaskGroup exceptions, if there was exception already we will get it
+            if exc_type is None and task is not None:
+                # ...but when this task gets cancelled while waiting and a member fails
+                # while being torn down, the group reports the member errors instead of
+                # the cancellation - which must not be lost. The request the group makes
+                # itself (when a member fails on its own) is not a cancellation of this task.
+                own_requests: int = 1 if getattr(self._group, "_parent_cancel_requested", False) else 0
+                if task.cancelling() - cancel_requests > own_requests:
+                    raise CancelledError() from None
